@@ -79,6 +79,36 @@ def read_varint(interp, data, pos):
             return None, i
 
 
+def concretize(interp, v, cap=8):
+    """a symbolic integer is needed as a concrete number (a length read from left-over / misaligned bytes): fork over its
+    feasible values (at most `cap`, otherwise the source is outside the encodable bound)"""
+    if is_conc(v):
+        return v
+    v = z3.simplify(v)
+    if z3.is_bv_value(v):
+        return v.as_long()
+    seen = []
+    for _ in range(cap + 1):
+        sol = interp.solver
+        sol.push()
+        for c in interp.pc:
+            sol.add(c)
+        for x in seen:
+            sol.add(v != x)
+        r = sol.check()
+        cand = sol.model().eval(v, model_completion=True).as_long() if r == z3.sat else None
+        sol.pop()
+        interp.queries += 1
+        if cand is None:
+            raise rseval.PathAbort()
+        if len(seen) >= cap:
+            raise Unsupported("a length read from the file has more than %d feasible values" % cap)
+        if interp.branch(v == cand):
+            return cand
+        seen.append(cand)
+    raise Unsupported("concretisation failed")
+
+
 def sizeof_varint(interp, v):
     if isinstance(v, bool):
         return 1
@@ -207,11 +237,7 @@ def install_protobuf(it, prog):
         if n is None:
             return None
         if not is_conc(n):
-            n = z3.simplify(n)
-            if z3.is_bv_value(n):
-                n = n.as_long()
-            else:
-                raise Unsupported("symbolic length prefix")
+            n = concretize(interp, n)
         if recv.start + n > recv.end:
             return None
         s = recv.start
@@ -316,6 +342,7 @@ class Fs:
     def __init__(self):
         self.files = {}  # name -> list of bytes
         self.mutations = 0
+        self.journal = None  # when a list: every mutating call is appended as (file, kind, pos_or_len, bytes)
 
     def snapshot(self):
         return {k: list(v) for k, v in self.files.items()}
@@ -378,7 +405,7 @@ def install_fs(it, fs):
         else:
             raise Unsupported("seek %r" % (a,))
         if not is_conc(p):
-            raise Unsupported("symbolic seek offset")
+            p = concretize(interp, p)
         recv.posbox[0] = p
         return io_ok(p)
     it.models[("SimFile", "seek")] = seek
@@ -389,6 +416,8 @@ def install_fs(it, fs):
         fs.mutations += 1
         d = recv.data
         p = recv.posbox[0]
+        if fs.journal is not None:
+            fs.journal.append((recv.name, "write", p, list(buf)))
         if p > len(d):
             d.extend([0] * (p - len(d)))
         d[p:p + len(buf)] = buf
@@ -398,8 +427,12 @@ def install_fs(it, fs):
 
     def set_len(interp, recv, args):
         n = args[0]
+        if not is_conc(n):
+            n = concretize(interp, n)
         d = recv.data
         fs.mutations += 1
+        if fs.journal is not None:
+            fs.journal.append((recv.name, "set_len", n, None))
         if n < len(d):
             del d[n:]
         else:
@@ -453,3 +486,83 @@ def install_byte_utils(it):
         return z3.simplify(v)
     it.fn_models["id_to_bin"] = id_to_bin
     it.fn_models["bin_to_id"] = bin_to_id
+
+
+# ---------------------------------------------------------------------------------------------------
+# std::io::Cursor + binrw big-endian (de)serialisation of LogIndexHeaderDo (32 bytes, field order of the struct definition)
+HEADER_FIELDS = [("magic", 4), ("version", 2), ("last_term", 8), ("first_index", 8), ("data_area_index", 2), ("index_interval", 2),
+                 ("all_index_count", 2), ("status", 1), ("ext1", 1), ("ext2", 1), ("ext3", 1)]
+
+
+class CursorObj:
+    def __init__(self, data):
+        self.ty = "Cursor"
+        self.data = data
+        self.pos = 0
+
+
+def install_cursor(it, prog):
+    st = prog.structs.get("LogIndexHeaderDo")
+    if st is None or [f for f, _t in st] != [f for f, _n in HEADER_FIELDS]:
+        raise Unsupported("LogIndexHeaderDo layout differs from the modelled binrw layout: %r" % (st,))
+    widths = {"u8": 1, "u16": 2, "u32": 4, "u64": 8}
+    for (f, ty), (_f2, n) in zip(st, HEADER_FIELDS):
+        if widths.get(ty.strip()) != n:
+            raise Unsupported("LogIndexHeaderDo field %s has type %s" % (f, ty))
+    it.fn_models["Cursor::new"] = lambda interp, args: CursorObj(args[0])
+    it.models[("Cursor", "set_position")] = lambda interp, recv, args: setattr(recv, "pos", args[0]) or ()
+    it.models[("Cursor", "get_mut")] = lambda interp, recv, args: recv.data
+    it.models[("Cursor", "get_ref")] = lambda interp, recv, args: recv.data
+
+    def write_be(interp, recv, args):
+        h = args[0]
+        out = []
+        for f, n in HEADER_FIELDS:
+            v = h[f]
+            for i in range(n):
+                sh = 8 * (n - 1 - i)
+                out.append((v >> sh) & 0xff if is_conc(v) else z3.simplify(z3.LShR(v, sh) & 0xff))
+        recv.data[recv.pos:recv.pos + len(out)] = out
+        recv.pos += len(out)
+        return Ok(())
+    it.models[("Cursor", "write_be")] = write_be
+
+    def read_be(interp, recv, args):
+        vals = {}
+        p = recv.pos
+        for f, n in HEADER_FIELDS:
+            bs = recv.data[p:p + n]
+            if len(bs) < n:
+                return Err(Uninterp("binrw::Error", []))
+            if all(is_conc(b) for b in bs):
+                v = 0
+                for b in bs:
+                    v = (v << 8) | b
+            else:
+                v = z3.BitVecVal(0, 64)
+                for b in bs:
+                    v = (v << 8) | rseval.to_bv(b)
+                v = z3.simplify(v)
+            vals[f] = v
+            p += n
+        recv.pos = p
+        return Ok(Struct("LogIndexHeaderDo", vals))
+    it.models[("Cursor", "read_be")] = read_be
+
+
+def replay_journal(image, journal, upto):
+    """file image after the first `upto` mutating calls of the journal (crash model: process death, the OS survives; every
+    call atomic and applied in program order)"""
+    files = {k: list(v) for k, v in image.items()}
+    for name, kind, a, data in journal[:upto]:
+        d = files.setdefault(name, [])
+        if kind == "write":
+            if a > len(d):
+                d.extend([0] * (a - len(d)))
+            d[a:a + len(data)] = data
+        else:
+            if a < len(d):
+                del d[a:]
+            else:
+                d.extend([0] * (a - len(d)))
+    return files
